@@ -209,7 +209,7 @@ def c12_4(ctx, ss):
     augm = [n for n in pf.walk_no_nested(ff.node) if isinstance(n, ast.AugAssign) and isinstance(n.op, ast.Mult) and isinstance(n.target, ast.Name)]
     okm = isinstance(dm, ast.Call) and txt(dm.func) == "DecayMode" and len(dm.args) == 2 and len(augm) == 1 and txt(dm.args[0]) == augm[0].target.id and txt(dm.args[1]) == FS
     star = [kw for kw in dm.keywords if kw.arg is None] if isinstance(dm, ast.Call) else []
-    okmeta = len(star) == 1 and txt(star[0].value) in ("self.top_level_decay().metadata", "self.decays[self.mother].metadata")
+    okmeta = len(star) == 1 and flow.text(star[0].value) in ("self.top_level_decay().metadata", "self.decays[self.mother].metadata")
     (ctx.holds if okm else ctx.violation)("C12.4", k + " :: mode", where(ff, rets[0]), "the single mode is DecayMode(product, leaves, …)" if okm else f"the mode is `{txt(dm)[:80]}`")
     (ctx.holds if okmeta else ctx.violation)("C12.4", k + " :: metadata", where(ff, rets[0]),
                                              "the top-level model information / metadata is kept" if okmeta else "the top-level model information is not carried into the flattened chain")
